@@ -156,6 +156,15 @@ func (x *Exec) regexFindStringSubmatch(e *Env, re RegexV, n *ast.CallExpr) (Valu
 	}
 	e.st.assume(Implies(found, Eq(m, Ite(And(Lt(b, key.Len), Or(isMark...)), IntC(1), IntC(0)))))
 	e.st.assume(And(Le(IntC(0), m), Le(m, IntC(1))))
+	// consequence, stated for the solvers: when the match spans the whole string, the marker group is non-empty
+	// exactly when the last character is a marker (the character before an empty marker group is a digit, and
+	// markers are not digits)
+	last := Sub(key.Len, IntC(1))
+	var lastMark []*Term
+	for _, c := range markers {
+		lastMark = append(lastMark, Eq(at(last), e.byteC(int64(c))))
+	}
+	e.st.assume(Implies(And(found, Eq(a, IntC(0)), Eq(Add(b, m), key.Len)), Eq(m, Ite(And(Le(IntC(1), key.Len), Or(lastMark...)), IntC(1), IntC(0)))))
 	sub := func(lo, hi *Term) Value {
 		ln := Sub(hi, lo)
 		return SliceV{Alloc: key.Alloc, path: key.path, Off: Add(key.Off, lo), Len: ln, Cap: ln, Elem: byteT, IsString: true, Nil: FalseT, Typ: types.Typ[types.String]}
